@@ -38,6 +38,12 @@ impl vstd::std_specs::cmp::PartialEqSpecImpl for ZobristHash {
 pub assume_specification<T, A: std::alloc::Allocator> [std::vec::Vec::<T, A>::shrink_to_fit] (v: &mut std::vec::Vec<T, A>)
     ensures final(v)@ == old(v)@;
 
+// slice::fill, in case a body clears the table with it instead of a loop (ASSUMED: every element becomes a clone of the
+// value; for Option::None that is None)
+pub assume_specification<T: Clone> [<[T]>::fill] (s: &mut [T], value: T)
+    ensures final(s)@.len() == old(s)@.len(),
+        forall|i: int| 0 <= i < final(s)@.len() ==> cloned(value, #[trigger] final(s)@[i]);
+
 // stand-ins for types that the policy function never inspects
 #[derive(Debug, Clone)]
 pub struct Move(pub u16);
@@ -158,14 +164,15 @@ impl<T: Clone + TTOverwriteable> TranspositionTable<T> {
         ensures final(self).wf(), final(self).all_empty(), final(self).data@.len() == old(self).data@.len(),
             final(self).generation == 0, final(self).occupied == 0, final(self).size == old(self).size,
 {
-        for i in 0..self.data.len() 
-            invariant self.data@.len() == old(self).data@.len(), self.size == old(self).size,
-                forall|j: int| 0 <= j < i ==> self.data@[j].is_none(),
-{
-            self.data[i] = None;
+        self.generation = 0;
+
+        // PERF: Walking the whole table is slow for large hash sizes, and GUIs tend to send
+        // several ucinewgame in a row. There's nothing to clear if the table is already empty.
+        if self.occupancy() == 0 {
+            return;
         }
 
-        self.generation = 0;
+        self.data.fill(None);
         self.occupied = 0;
             proof { lemma_count_none(self.data@); }
 }
@@ -213,7 +220,22 @@ impl<T: Clone + TTOverwriteable> TranspositionTable<T> {
         key.0 as usize % self.data.len()
     }
 
-
+    #[expect(
+        clippy::cast_precision_loss,
+        clippy::cast_possible_truncation,
+        clippy::cast_sign_loss,
+        reason = "This is just an approximation, so a loss of precision is fine"
+    )]
+    // f32 arithmetic: no float theory in Verus -- the body is NOT verified here (external_body); callers only learn that
+    // it returns some permille value
+    #[verifier::external_body]
+    pub fn occupancy(&self) -> (r: usize) 
+        ensures r <= usize::MAX,
+{
+        let decimal = self.occupied as f32 / self.data.len() as f32;
+        let permille = decimal * 1000.0;
+        permille as usize
+    }
 
     pub fn insert(&mut self, key: &ZobristHash, data: T) 
         requires old(self).wf(),
